@@ -172,8 +172,12 @@ for i, k in enumerate(KINDS):
     for j, (g, fs) in enumerate(GROUPS):
         if g == "gen":
             continue  # see props_*_gen: gen_reg is out of reach
+        if g == "rw" and k == "branch":
+            continue  # two nodes, two sources and a label each: out of memory after 580 s (measured)
         core = (g in ("kill", "gen", "rw") and k in ("arith", "jal", "store", "load", "jalr")) or (g == "values" and k in ("iarith", "load", "store"))
-        h("equiv_%s_%s" % (k, g), "ob_regs", ["C14"], tier="quick", optional=not core,
+        heavy = g == "rw" and k in ("arith", "branch", "store")
+        h("equiv_%s_%s" % (k, g), "ob_regs", ["C14"], tier="thorough" if (g == "rw" and k == "branch") else "quick", optional=not core,
+          cap=(1500 if k == "branch" else 900) if heavy else None, mem=8 if heavy else 3,
           symbolic="node fields (opcode, rd, rs1, rs2, imm, csr), transposition (a b) of two symbolic registers of the temporary or of the saved class, probe register",
           desc="f(pi.node) == pi.f(node) for f in {%s} on %s nodes" % (fs, k),
           bounds="transpositions (generate all permutations); unwind 9", stubs=UUID)
@@ -190,6 +194,8 @@ PGROUPS = [("rw", "reads_from/writes_to == architectural source/destination fiel
            ("misc", "memory operands give the effective address; jump/call/return predicates agree with the ISA", ["C08"])]
 for k in KINDS:
     for g, d, ps in PGROUPS:
+        if g == "rw" and k == "branch":
+            continue  # reads_from on a two-source node carrying a label: not decided in 1500 s (measured)
         if g == "gen":
             # gen_reg consumes reads_from() by value; the drop glue of the tokens it carries makes the
             # formula explode (17 M variables, out of memory) even for one node: not registered.
@@ -199,7 +205,7 @@ for k in KINDS:
           cap=(1500 if k == "branch" else 900) if (g == "rw" and k in ("arith", "branch", "store")) else None, mem=6 if g == "rw" else 3,
           tier="thorough" if (g == "rw" and k == "branch") else "quick",
           optional=(g == "misc" and k in ("basic", "la", "csri", "funcentry")) or (g in ("kill", "gen") and k in ("basic", "la", "csri", "branch")))
-for k in ("arith", "iarith", "jalr", "branch", "store", "load", "csr"):
+for k in ("iarith", "jalr", "branch", "store", "load", "csr"):  # (arith: two copies of every multiplier/divider, not decided in 1500 s)
     h("oracle_ni_" + k, "ob_props", ["C08"], tier="thorough", symbolic="node fields, two register files",
       desc="oracle self-check: rvref::effect depends only on rvref::arch_reads", bounds="unwind 34")
 
@@ -253,14 +259,17 @@ for c in _rules:
 # C06: abs() in message formatting; C18.a ordering; C19 dump values
 FMT = ["core::fmt::Formatter::write_fmt -> Ok(()) (the write! inside a Display::fmt body; its argument expressions are still evaluated)"]
 h("abs_memloc_fmt", "ob_misc", ["C06"], symbolic="offset:i32", desc="Display for MemoryLocation::StackOffset(o) never panics (o.abs())", bounds="none", stubs=FMT)
-h("abs_lint_fmt", "ob_misc", ["C06"], tier="thorough", cap=1500, mem=10, symbolic="offset:i32, variant", desc="Display for LintError::InvalidStackPosition/InvalidStackOffsetUsage never panics (i.abs())", bounds="none", stubs=FMT + UUID)
+# (abs_lint_fmt - Display of LintError::InvalidStackPosition/InvalidStackOffsetUsage(node, i32) - was built and measured:
+# not decided in 1500 s (the value carries a whole ParserNode).  Not registered; the same i.abs() -> unsigned_abs() repair
+# was made there by reading, see DESIGN.md section 5.)
 h("abs_memloc_ser", "ob_misc", ["C06", "C19"], symbolic="offset:i32", desc="Serialize for MemoryLocation::StackOffset(o) never panics (o.abs())", bounds="none",
   stubs=["alloc::fmt::format -> empty String (arguments still evaluated)"])
 h("serde_fact_injective", "ob_misc", ["C19"], symbolic="two facts: variant (9), i32, u32 csr, register, label (2)",
   desc="record(a) == record(b) => a == b under a recording Serializer that keeps variant names and scalar values", bounds="labels from a 2-entry set; unwind 8")
 h("serde_scalar_records", "ob_misc", ["C19"], symbolic="register, i32, u32", desc="Register / Imm / CsrImm serialize to their number", bounds="none")
-h("serde_regset_roundtrip", "ob_misc", ["C19"], tier="thorough", cap=1500, mem=10, symbolic="2-bit mask at a symbolic position",
-  desc="RegisterSet: deserialize(serialize(s)) == s", bounds="<= 2 adjacent members; unwind 34")
+# (serde_regset_roundtrip / serde_regset_single - RegisterSet's Serialize/Deserialize, which go through the set iterator,
+# itertools::sorted and a Vec - were built and measured: neither is decided in 1500 s even for one- and two-element sets.
+# Not registered; the iterator itself is C14's regs_set_iter.)
 h("diag_cmp_order", "ob_misc", ["C18"], symbolic="3 items: file (2 values), start/end raw offsets",
   desc="DiagnosticItem::cmp is a total order consistent with ==, and position order within a file", bounds="3 items")
 h("diag_sort_three", "ob_misc", ["C18"], symbolic="3 items: file (2 values), raw offset",
@@ -276,7 +285,6 @@ prop("C19", outside="MemoryLocation strings (format!-based), AvailableValueMap (
 # (A token-range harness - real Lexer::next() on a concrete statement behind four symbolic layout characters drawn from
 # newline/space/tab - was built and measured: all five statements hit the 900 s cap; one symbolic character in front of
 # Lexer::next is already too much, as in the design-phase probe.  Not registered.)
-h("serde_regset_single", "ob_misc", ["C19"], tier="thorough", cap=1500, mem=10, symbolic="register r", desc="RegisterSet {r} serializes to the sequence [r]", bounds="unwind 34")
 
 # ---------------------------------------------------------------------------
 # C01 (and C06): engine E4 - the facts of whole programs are inductive invariants
@@ -288,6 +296,7 @@ E4_FAMILIES = [
     ("skip", "conditionally skipped instruction followed by every instruction and a reload (196)"),
     ("loop", "loop with every choice of (pre-header, body, exit) instruction (2744)"),
     ("call", "call between every pair of instructions (196)"),
+    ("func", "every function body of 1-3 instructions over a 10-instruction save/restore alphabet, between the frame push and pop (1110; thorough: 1-4, 11110)"),
 ]
 for fam, d in E4_FAMILIES:
     side("e4_" + fam, "e4", ["C01", "C06"], symbolic="entry register file, current register file (31 x BitVec 32 each), memory (Array BitVec32 BitVec32), havoc values",
